@@ -118,3 +118,10 @@ TECHNIQUE = ('Lean 4 theorems over executable models of the reproducibility mech
              'order independence, scheduled point-to-point exchange) tied to /repo by differential execution and '
              'generated side conditions; the runtime clause (uninitialised memory, ASLR, scheduling, timing) is '
              'exercised by repeated execution under perturbation and by valgrind - testing in support, not proof')
+LEVEL_NOTE_PREFIX = ('PARTIAL: only the clauses that are logic are proved (order independence of the rand()-consuming '
+                     'wall-distance search, determinism of the edge numbering in the live-cell order, independence of '
+                     'the tagged point-to-point exchanges of message delivery and completion order) and tied to the C; '
+                     'the runtime clause of the property (no dependence on uninitialised memory, heap contents, ASLR, '
+                     'scheduling, timing) cannot be stated about a pure model and is ONLY EXERCISED by repeated '
+                     'execution under perturbation (cli_repro) and valgrind (cli_memcheck): testing in support, '
+                     'not proof. ')
